@@ -1,16 +1,16 @@
-\* exhaustive: Gen/Enc on 11 grids up to 3x3 and 2x4 (uniform, non-uniform, origins (5,2), (-1,-2)), k = 1..3; solve loop on grids up to 2x2 with every occupancy in {0, 1/2, 1}^cells.  Largest integer: 2 * 100 * 4 cells < 2^31
+\* NEGATIVE run: the border exclusions as implemented today (literal 0, int(Width)) on a grid with origin (5,2). TLC must report a violation of EncSound (a branch on the border that abuts nothing).
 SPECIFICATION Spec
 CONSTANTS
-  GRIDS <- QuickGrids
+  GRIDS <- DefectGrids
   SGRIDS <- McSolveGrids
-  KMAX = 3
+  KMAX = 2
   DEN = 2
   OCCVALS = {0, 1, 2}
   FNUM = 100
   FDEN = 1
   RATIO = 2
-  MODES = {"gen", "enc", "solve"}
-  BORDER = "grid"
+  MODES = {"enc"}
+  BORDER = "literal"
   UNIT = 1
   EMIT = FALSE
 INVARIANT TypeOK
